@@ -167,7 +167,7 @@ PROPS = {
                  "the provenance table (which API field is a copy) is tied to the source by the statement shapes of getDocument and of the listing branch (regenerated facts) and by the pointer-in-mapping test at return time",
                  "decodeVector allocates a fresh slice (make) for every returned vector"],
         statement="every returned value has provenance copy ⇒ stable; inputs are not retained",
-        partial="'inputs_not_retained' is checked on the implementation only (caller slices mutated after the call); the model records provenance of results",
+        partial="'inputs not retained': the regenerated fact caller_slices_not_retained lists every statement of AddDocument / UpdateDocument / WriteRecord that touches the caller's slices (a length check, local literals, encodeDocument, serializeSpan — nothing that stores them), and the harness mutates the caller's slices after the call; the model records provenance of results",
     ),
     "C17": dict(
         modules=["Syzgy.Props.C17"], ties=["Rest"],
